@@ -115,6 +115,21 @@ def build_jet():
     return _built["jet"]
 
 
+def build_decode1090():
+    """Build the decode1090 command-line tool from /repo's working tree (same target dir as jet1090,
+    so the dependencies are shared).  It has no hooks: the binary is the unmodified program."""
+    if "decode1090" in _built:
+        return _built["decode1090"]
+    t0 = time.time()
+    p = sh(["cargo", "build", "--offline", "-p", "decode1090"], cwd=REPO, check=False, timeout=3600,
+           env={"CARGO_TARGET_DIR": os.path.join(BUILD, "jet"), "RUSTFLAGS": f"--cfg {GUARD}"})
+    if p.returncode != 0:
+        raise ToolError("decode1090 build failed (does /repo still compile?)\n" + (p.stdout or "")[-6000:])
+    log(f"built decode1090 in {time.time()-t0:.1f}s")
+    _built["decode1090"] = os.path.join(BUILD, "jet", "debug", "decode1090")
+    return _built["decode1090"]
+
+
 def run_rs(binname, args, *, stdin=None, timeout=3600, check=True):
     """Run harness binary src/bin/<binname>.rs (rebuilt from /repo's working tree first)."""
     exe = build_rs(binname)
